@@ -228,6 +228,89 @@ Proof.
 Qed.
 Print Assumptions C20_fs_resolution.
 
+(* the parser is a function of the WORDS of the non-skipped lines, for EVERY text: header words, then per row: letter, at
+   least one value word (else ValueError), the first min(#letters, #values) words converted by the reader the row selects
+   (float iff some value word of the row, converted or not, contains "."), any failing conversion is a ValueError *)
+Theorem C20_parse_words : forall raw, parse raw = table_of_words (map split_ws (content_lines raw)).
+Proof. exact parse_words. Qed.
+Print Assumptions C20_parse_words.
+(* ... so for every file of the layout grammar, under every line terminator, the text layer disappears completely *)
+Theorem C20_parse_render_words : forall e final f, afile_ok f = true ->
+  parse (render_with e final f) = table_of_words (word_lines f).
+Proof. exact parse_render_words. Qed.
+Print Assumptions C20_parse_render_words.
+
+(* EVERY file that loads, repeated letters included ("exactly the number at that position" read as the code does): the cell
+   [r][c] is the word of the LAST data line starting with r, in the LAST of the first min(#letters, #values) columns headed c;
+   row letters of the result are pairwise different and are exactly the first words of the data lines *)
+Theorem C20_parse_general : forall raw m, parse raw = Some m ->
+  (forall r c, cell m r c = cell_spec raw r c) /\
+  NoDup (map fst m) /\
+  (forall r, In r (map fst m) <-> In r (map first_word (data_lines raw))).
+Proof. exact parse_general. Qed.
+Print Assumptions C20_parse_general.
+
+(* exactly when loading raises ValueError: some data line has fewer than two words, or one of the words that zip() reaches is
+   not a number for the reader its row selects *)
+Theorem C20_parse_succeeds_iff : forall raw,
+  is_some (parse raw) = forallb (line_parses (header_of raw)) (data_lines raw).
+Proof. exact parse_succeeds_iff. Qed.
+Print Assumptions C20_parse_succeeds_iff.
+
+(* the boolean symmetry check used for the 95 bundled files IS the statement, for every parser result *)
+Theorem C20_symmetric_iff : forall raw m, parse raw = Some m ->
+  (sym_ok m = true <->
+   forall a b va vb, cell m a b = Some va -> cell m b a = Some vb -> num_val_eqb va vb = true).
+Proof. exact symmetric_iff. Qed.
+Print Assumptions C20_symmetric_iff.
+(* "equal" there is equality of the denoted rationals (int 1 = float 1.0 = 1.00) *)
+Theorem C20_num_val_eqb_is_rational_eq : forall a b,
+  num_val_eqb a b = true <-> (fst (num_q a) * snd (num_q b) = fst (num_q b) * snd (num_q a))%Z.
+Proof. exact num_val_eqb_rational. Qed.
+Print Assumptions C20_num_val_eqb_is_rational_eq.
+
+(* int or float is decided per ROW: a loaded cell is an int iff NO number of its row is written with a decimal point;
+   its value is the written one either way *)
+Theorem C20_cell_is_int_iff : forall vals j v, nth_error vals j = Some v ->
+  exists v', nth_error (row_vals vals) j = Some v' /\ num_val_eqb v' v = true /\
+             is_int_num v' = forallb is_int_num vals.
+Proof. exact row_vals_nth. Qed.
+Print Assumptions C20_cell_is_int_iff.
+(* the per-CELL reading ("int iff the cell's own text is an integer literal") is false *)
+Theorem C20_per_cell_reading_refuted : exists vals v, In v vals /\ is_int_num v = true /\
+  forall v', In v' (row_vals vals) -> is_int_num v' = false.
+Proof. exact per_cell_reading_refuted. Qed.
+Print Assumptions C20_per_cell_reading_refuted.
+
+(* the cell grammar (py_int / py_float are compared with CPython's int() / float() on every generated word):
+   without underscores int() is the plain [+-]?D+ reader and float() the decimal / exponent reader *)
+Theorem C20_cell_syntax_plain : forall tok, has_us tok = false ->
+  py_int tok = Z_of_dec tok /\
+  py_float tok = match dec_of_token tok with
+                 | Some (m, k) => Some (NDec m k)
+                 | None => match sfloat tok with Some (m, k) => Some (NDec m k) | None => None end
+                 end.
+Proof. exact (fun tok H => conj (int_plain tok H) (float_plain tok H)). Qed.
+Print Assumptions C20_cell_syntax_plain.
+(* one underscore between two runs of digits does not change the integer *)
+Theorem C20_int_underscore : forall a b, all_digits a = true -> all_digits b = true ->
+  py_int (a ++ "_"%byte :: b) = Z_of_dec (a ++ b) /\ py_int (a ++ b) = Z_of_dec (a ++ b).
+Proof. exact int_underscore. Qed.
+Print Assumptions C20_int_underscore.
+(* exponent notation: float("<m/10^k>e<ex>") is m * 10^ex / 10^k *)
+Theorem C20_float_exponent : forall m k ex, (-1000 < ex < 1000)%Z ->
+  py_float (render_dec m k ++ "e"%byte :: dec_of_Z ex) = Some (NDec (fst (scale m k ex)) (snd (scale m k ex))) /\
+  (let (m', k') := scale m k ex in
+   if Z.leb 0 ex then (m' * pow10 k = m * Z.pow 10 ex * pow10 k')%Z else (m' = m /\ Z.of_nat k' = Z.of_nat k - ex)%Z).
+Proof. exact (fun m k ex H => conj (float_exponent m k ex H) (scale_value m k ex)). Qed.
+Print Assumptions C20_float_exponent.
+
+(* the FileNotFoundError text lists EXACTLY the available matrices: cut at ", " the listing is the regenerated name list *)
+Theorem C20_fnf_listing_exact : split_cs available [] = submat_names /\
+  forall name, exists p, fnf_message name = p ++ available.
+Proof. exact (conj listing_exact (fun name => proj1 (fnf_lists_all name))). Qed.
+Print Assumptions C20_fnf_listing_exact.
+
 (* non-vacuity: a user file with a comment, a blank line, CRLF line ends, an integer row and a decimal row *)
 Example C20_witness :
   wf_content (unhex (bs "2320630d0a0d0a2020412020420d0a412020312020322e350d0a42092d3209370d0a"%bs)) = true /\
@@ -284,3 +367,31 @@ X 1"%bs) /\
   submat_fs [(bs "nuc"%bs, FLink (bs "t"%bs)); (bs "t"%bs, FReg (bs "X
 X 1"%bs)); (bs "pam"%bs, FDir)] (bs "nuc"%bs) = OMatrix [(bs "X"%bs, [(bs "X"%bs, NInt 1)])].
 Proof. exact (conj eq_refl eq_refl). Qed.
+(* a trailing "# ..." is NOT a comment: beyond the header it is ignored by zip, but a "." in it turns the row into floats,
+   and in a short row it is read as a cell (ValueError) *)
+Example C20_witness_trailing_comment :
+  parse (bs "A B
+A 1 2 # c"%bs) = Some [(bs "A"%bs, [(bs "A"%bs, NInt 1); (bs "B"%bs, NInt 2)])] /\
+  parse (bs "A B
+A 1 2 # v1.0"%bs) = Some [(bs "A"%bs, [(bs "A"%bs, NDec 1 0); (bs "B"%bs, NDec 2 0)])] /\
+  parse (bs "A B C
+A 1 2 # c"%bs) = None.
+Proof. exact (conj eq_refl (conj eq_refl eq_refl)). Qed.
+(* repeated letters: the later row replaces the earlier one at its place, the later column wins *)
+Example C20_witness_repeated_letters :
+  parse (bs "A B A
+A 1 2 3
+B 4 5 6
+A 7 8"%bs) = Some [(bs "A"%bs, [(bs "A"%bs, NInt 7); (bs "B"%bs, NInt 8)]);
+                   (bs "B"%bs, [(bs "A"%bs, NInt 6); (bs "B"%bs, NInt 5)])] /\
+  cell_spec (bs "A B A
+A 1 2 3
+B 4 5 6
+A 7 8"%bs) (bs "B"%bs) (bs "A"%bs) = Some (NInt 6).
+Proof. exact (conj eq_refl eq_refl). Qed.
+Example C20_witness_cell_grammar :
+  py_int (bs "+00_7"%bs) = Some 7%Z /\ py_int (bs "1__0"%bs) = None /\ py_int (bs "1e5"%bs) = None /\
+  py_float (bs "-1_0.5E+0_2"%bs) = Some (NDec (-1050) 0) /\ py_float (bs ".5e-3"%bs) = Some (NDec 5 4) /\
+  py_float (bs "1_.5"%bs) = None /\ py_float (bs "1e"%bs) = None /\ py_float (bs "."%bs) = None /\
+  line_parses [bs "A"%bs] (bs "r 1e5 x"%bs) = false /\ line_parses [bs "A"%bs] (bs "r 1.e5 x"%bs) = true.
+Proof. exact witness_cell_grammar. Qed.
